@@ -97,7 +97,13 @@ class MinMaxLengthType(DiagCodedType):
                          f"'{self.base_data_type.value}' not a string")
                 raw_value = b''
             else:
-                raw_value = internal_value.encode(str_encoding)
+                try:
+                    raw_value = internal_value.encode(str_encoding, errors="strict")
+                except UnicodeEncodeError:
+                    odxraise(
+                        f"The value '{internal_value!r}' cannot be represented "
+                        f"as a {str_encoding} string", EncodeError)
+                    raw_value = internal_value.encode(str_encoding, errors="replace")
         else:
             raw_value = bytes(internal_value)
 
